@@ -22,7 +22,7 @@ for id in "$@"; do
     # demonstration is a #[cfg(test)] module inside the crate
     cp $demo src/mpc/$name.rs; printf '#[cfg(test)]\nmod %s;\n' $name >> src/mpc.rs
     runit() { nice cargo test --offline -p polytune --lib c10_ -- --test-threads=2; }
-    cleanup() { rm -f src/mpc/$name.rs; }
+    cleanup() { rm -f src/mpc/$name.rs; git checkout -q -- src/mpc.rs; }
   else
     cp $demo $tdir/$name.rs
     runit() { nice cargo test --offline $flags -p $pkg --test $name -- --test-threads=2; }
